@@ -3,7 +3,7 @@
    ANY grammar), restated here so that every run re-checks and counts them; the
    instantiation on the grammar regenerated from lcapy/grammar.py is C06_grammar.v. *)
 From Coq Require Import List Ascii Bool Arith ZArith Lia.
-From LT Require Import ParserStr ParserModel ParserThm ParserRoundTrip ParserValue ParserOpts.
+From LT Require Import ParserStr ParserModel ParserThm ParserRoundTrip ParserValue ParserOpts ParserNamespace.
 Import ListNotations.
 
 (* tokenizer: splitting the joined fields gives the fields back *)
@@ -59,6 +59,10 @@ Theorem C06_print_idempotent : forall g st rules i r c c' st',
   print_cpt (g_delims g) c' = print_cpt (g_delims g) c
   /\ parse g st [] (print_cpt (g_delims g) c') = Ok (c', st').
 Proof. exact print_idempotent. Qed.
+(* namespaces (.include file as name): for every line, parsing inside a namespace is parsing without it and
+   prefixing the namespace to the component name and to every node *)
+Theorem C06_parse_namespace : forall g st ns s, parse g st ns s = prefix_res ns (parse g st [] s).
+Proof. exact parse_namespace. Qed.
 (* rejection *)
 Theorem C06_reject_unbalanced : forall g st s,
   mem LBR (g_delims g) = false -> mem RBR (g_delims g) = false -> mem QUO (g_delims g) = false ->
@@ -123,6 +127,9 @@ Print Assumptions C06_parse_print.
 Print Assumptions C06_parse_print_anon.
 Print Assumptions C06_opts_roundtrip.
 Print Assumptions C06_print_idempotent.
+Print Assumptions C06_parse_namespace.
+Print Assumptions C06_name_rejoin.
+Print Assumptions C06_reject_empty_namespace.
 Print Assumptions C06_reject_unbalanced.
 Print Assumptions C06_reject_unknown_type.
 Print Assumptions C06_reject_too_many.
